@@ -35,7 +35,7 @@ allvars == <<vars, rvars>>
 
 Eager == Mode = "wf" \/ RBug = "eagerbatch"
 FailKind(n) == IF \E i \in 1..Len(fail) : fail[i].n = n THEN (CHOOSE f \in {fail[i] : i \in 1..Len(fail)} : f.n = n).kind ELSE "none"
-CaseEv == [ev |-> "case", id |-> "m", grp |-> "m", mode |-> Mode, nodes |-> NodeSeq, edges |-> EdgeSeq, branches |-> <<>>, fail |-> fail]
+CaseEv == [ev |-> "case", id |-> "m", grp |-> "m", mode |-> Mode, nodes |-> NodeSeq, edges |-> EdgeSeq, branches |-> <<>>, fail |-> fail, rerun |-> <<>>]
 
 RECURSIVE Join(_)
 Join(s) == IF s = <<>> THEN "" ELSE s[1] \o Join(Tail(s))
